@@ -286,20 +286,22 @@ def check_responses(ctx, fns, n, label, big=False, **kw):
 
 # ------------------------------------------------------------------------------------------------
 def gen_index(rng, shape):
-    """index expressions of C02: ints (also negative), slices with steps, Ellipsis, short tuples"""
-    idx = []
-    for n in shape[: rng.randint(0, len(shape))]:
-        r = rng.random()
-        if r < 0.3:
-            idx.append(rng.randint(-n, n - 1))
-        else:
-            a = rng.choice([None, rng.randint(-n, n)])
-            b = rng.choice([None, rng.randint(-n, n + 2)])
-            k = rng.choice([None, 1, 2, 3])
-            idx.append(slice(a, b, k))
+    """index expressions of C02: ints (also negative), slices with steps, Ellipsis, short tuples; every entry is
+    drawn for the axis it will address (entries after an Ellipsis address the LAST axes), so that negative bounds
+    stay within [-N, …) as the property's domain says"""
+    def entry(n):
+        if rng.random() < 0.3:
+            return rng.randint(-n, n - 1)
+        a = rng.choice([None, rng.randint(-n, n)])
+        b = rng.choice([None, rng.randint(-n, n + 2)])
+        return slice(a, b, rng.choice([None, 1, 2, 3]))
+
+    rank = len(shape)
     if rng.random() < 0.3:
-        idx.insert(rng.randint(0, len(idx)), Ellipsis)
-    return tuple(idx)
+        pre = rng.randint(0, rank)
+        post = rng.randint(0, rank - pre)
+        return tuple([entry(n) for n in shape[:pre]] + [Ellipsis] + [entry(n) for n in shape[rank - post:]])
+    return tuple(entry(n) for n in shape[: rng.randint(0, rank)])
 
 
 def idx_sexp(x):
